@@ -14,8 +14,8 @@ def splitRight (nd : TNode) (k : Nat) : TNode :=
 /-- the left half: value and cached lengths of `n` rewritten -/
 def splitLeft (t : Tree) (n : Ptr) (k : Nat) : Tree :=
   t.modify n (fun x => { x with value := Text.sanitize ((t.get n).value.take k),
-                                visLen := ((Text.decodeU16 ((t.get n).value.take k)).length : Int),
-                                totLen := ((Text.decodeU16 ((t.get n).value.take k)).length : Int) })
+                                visLen := splitLenW fixSplitTextLength ((t.get n).value.take k),
+                                totLen := splitLenW fixSplitTextLength ((t.get n).value.take k) })
 
 theorem splitText_eq (t : Tree) (n : Ptr) (off : Int) :
     t.splitText n off =
